@@ -42,6 +42,13 @@ Definition E_ZERODIV : Z := 2.       (* ZeroDivisionError *)
 Definition E_CONCAT_EMPTY : Z := 3.  (* ValueError: need at least one array to concatenate *)
 Definition E_DTYPE : Z := 4.         (* AudioIODataTypeError *)
 
+(** [zrange lo n] = [lo; lo+1; ...; lo+n-1] (linear time under vm_compute). *)
+Definition zrange (lo n : Z) : list Z :=
+  match n with
+  | Zpos p => fst (Pos.iter (fun '(acc, i) => (i :: acc, i - 1)) ([], lo + n - 1) p)
+  | _ => []
+  end.
+
 (** * binary32 sample conversion *)
 Definition prec32 : Z := 24.
 Definition emax32 : Z := 128.
